@@ -44,6 +44,17 @@ func genCase(t *rapid.T) Case {
 		return f
 	})
 	c := Case{Fns: rapid.SliceOfN(fn, 0, ev.Pick(6, 8)).Draw(t, "fns"), CancelAt: -1}
+	// one case in eight has a long argument list: nil entries (which start nothing) in front of
+	// and between the functions, so that the functions sit at positions around 32, 64, 128, 256
+	if len(c.Fns) > 0 && rapid.IntRange(0, 7).Draw(t, "long") == 0 {
+		pad := rapid.SampledFrom([]int{30, 31, 32, 62, 63, 64, 65, 126, 127, 128, 254, 255, 256, 257}).Draw(t, "pad")
+		split := rapid.IntRange(0, len(c.Fns)).Draw(t, "pad_at")
+		long := append([]Fn{}, c.Fns[:split]...)
+		for i := 0; i < pad; i++ {
+			long = append(long, Fn{Nil: true, Out: "nil"})
+		}
+		c.Fns = append(long, c.Fns[split:]...)
+	}
 	if rapid.IntRange(0, 2).Draw(t, "cancels") == 0 {
 		c.CancelAt = rapid.IntRange(0, 30).Draw(t, "cancel_at")
 		c.Deadline = rapid.IntRange(0, 2).Draw(t, "deadline") == 0
@@ -345,6 +356,9 @@ func body(c *sched.Ctl, cs Case, v *ev.Verdict) {
 	}
 	if countNil(cs.Fns) > 0 {
 		v.Class("nil-entries")
+	}
+	if len(cs.Fns) > 64 {
+		v.Class("more-than-64-arguments")
 	}
 	if nn <= 1 {
 		v.Class("zero-or-one-function")
